@@ -532,8 +532,8 @@ def timeVictims (σ : CState) : List String :=
 least-recently-accessed keys (any order, ties broken arbitrarily). -/
 def janLegal (σ : CState) (order : List String) : Bool :=
   let tv := timeVictims σ
-  let first := order.take tv.length
-  let rest := order.drop tv.length
+  let first := order.filter fun k => tv.contains k
+  let rest := order.filter fun k => !tv.contains k
   let remaining := σ.cache.filter fun p => !tv.contains p.1
   let need := if σ.cfg.maxSize > 0 then remaining.length - σ.cfg.maxSize else 0
   let victims := remaining.filter fun p => rest.contains p.1
